@@ -304,6 +304,27 @@ Proof. induction ops as [|o r IH]; intros s I; simpl; [exact I|]. apply IH, Inv_
 Lemma Inv_run c ops : Inv c (run c ops).
 Proof. apply Inv_fold, Inv_init. Qed.
 
+(* In every reachable state STARTED implies a locked rule set, so the logic setter's own test of
+   Flag.STARTED is redundant: rules.clear() raises the same IllegalStateError first.  (A mutant
+   that weakens that test is behaviourally equivalent up to the error message.) *)
+Definition set_logic_no_started_guard (c : cfg) (s : st) : st * res :=
+  if c_fin_lock c && finished s then (s, RErr IllegalState) else
+  if locked s then (s, RErr IllegalState) else
+  let s1 := mkSt (premature s) (finished s) (timed_out s) (trunk s) (started s) true (has_arg s) (locked s) false
+                 (nhand s) (hist s) (c_nrules c) in
+  if has_arg s1 && c_auto c then build_trunk c s1 else (s1, ROk).
+
+Lemma logic_started_guard_redundant c ops : let s := run c ops in
+  set_logic c s = set_logic_no_started_guard c s.
+Proof.
+  intro s. pose proof (Inv_run c ops) as I. fold s in I.
+  unfold set_logic, set_logic_no_started_guard, refuses.
+  destruct (started s) eqn:St.
+  - destruct (i_started _ _ I St) as (_ & L). rewrite L. cbn [orb].
+    destruct (c_fin_lock c && finished s); reflexivity.
+  - cbn [orb]. reflexivity.
+Qed.
+
 (* ---- steps_bounded ------------------------------------------------------------- *)
 Theorem steps_bounded c ops z : c_max_steps c = Some z -> (0 < z)%Z -> (Z.of_nat (hist (run c ops)) <= z)%Z.
 Proof. intros M P. exact (i_lim _ _ (Inv_run c ops) z M P). Qed.
